@@ -1352,6 +1352,132 @@ impl CompositionGraph {
     }
 }
 
+#[cfg(wac_verif)]
+impl CompositionGraph {
+    /// Verification hook: a canonical dump of internal bookkeeping that the
+    /// public queries do not expose (satisfied argument sets, export order,
+    /// edges in adjacency order, free-list independent).
+    pub fn verif_dump(&self) -> String {
+        let mut out = String::new();
+        out.push_str("S[");
+        for i in self.graph.node_indices() {
+            if let NodeKind::Instantiation(s) = &self.graph[i].kind {
+                let mut v: Vec<_> = s.iter().copied().collect();
+                v.sort_unstable();
+                write!(out, "{}:{:?},", i.index(), v).unwrap();
+            }
+        }
+        out.push_str("]X[");
+        for (n, i) in &self.exports {
+            write!(out, "{n}={},", i.index()).unwrap();
+        }
+        out.push_str("]G[");
+        for i in self.graph.node_indices() {
+            for e in self.graph.edges_directed(i, Direction::Outgoing) {
+                let k = match e.weight() {
+                    Edge::Alias(x) => format!("a{x}"),
+                    Edge::Argument(x) => format!("g{x}"),
+                    Edge::Dependency => "d".to_string(),
+                };
+                write!(out, "{}>{}:{k},", i.index(), e.target().index()).unwrap();
+            }
+        }
+        out.push(']');
+        out
+    }
+
+    /// Verification hook: the list of violated internal invariants.
+    pub fn verif_invariants(&self) -> Vec<String> {
+        let mut bad = Vec::new();
+        for i in self.graph.node_indices() {
+            let node = &self.graph[i];
+            let mut incoming: Vec<usize> = Vec::new();
+            let mut alias_edges = 0;
+            for e in self.graph.edges_directed(i, Direction::Incoming) {
+                match e.weight() {
+                    Edge::Argument(x) => incoming.push(*x),
+                    Edge::Alias(_) => {
+                        alias_edges += 1;
+                        if !matches!(self.graph[e.source()].item_kind, ItemKind::Instance(_)) {
+                            bad.push(format!("alias {} has a non-instance source", i.index()));
+                        }
+                    }
+                    Edge::Dependency => {}
+                }
+            }
+            incoming.sort_unstable();
+            match &node.kind {
+                NodeKind::Instantiation(s) => {
+                    let mut v: Vec<_> = s.iter().copied().collect();
+                    v.sort_unstable();
+                    if v != incoming {
+                        bad.push(format!(
+                            "node {}: satisfied {v:?} != incoming argument edges {incoming:?}",
+                            i.index()
+                        ));
+                    }
+                }
+                _ => {
+                    if !incoming.is_empty() {
+                        bad.push(format!("node {}: argument edge into a non-instantiation", i.index()));
+                    }
+                }
+            }
+            if matches!(node.kind, NodeKind::Alias) && alias_edges != 1 {
+                bad.push(format!("alias {} has {alias_edges} alias edges", i.index()));
+            }
+            if let Some(p) = node.package {
+                let ok = self
+                    .packages
+                    .get(p.index)
+                    .map(|e| e.generation == p.generation && e.package.is_some())
+                    .unwrap_or(false);
+                if !ok {
+                    bad.push(format!("node {}: dead package id", i.index()));
+                }
+            }
+            if let Some(name) = &node.export {
+                if self.exports.get(name) != Some(&i) {
+                    bad.push(format!("node {}: export name `{name}` not mapped to it", i.index()));
+                }
+            }
+            if let NodeKind::Import(name) = &node.kind {
+                if self.imports.get(name) != Some(&i) {
+                    bad.push(format!("node {}: import name `{name}` not mapped to it", i.index()));
+                }
+            }
+        }
+        for (n, i) in &self.exports {
+            if !self.graph.contains_node(*i) {
+                bad.push(format!("export `{n}` refers to dead node {}", i.index()));
+            }
+        }
+        for (n, i) in &self.imports {
+            match self.graph.node_weight(*i).map(|x| &x.kind) {
+                Some(NodeKind::Import(m)) if m == n => {}
+                _ => bad.push(format!("import `{n}` refers to node {} which is not that import", i.index())),
+            }
+        }
+        for i in self.defined.values() {
+            match self.graph.node_weight(*i).map(|x| &x.kind) {
+                Some(NodeKind::Definition) => {}
+                _ => bad.push(format!("defined entry refers to node {} which is not a definition", i.index())),
+            }
+        }
+        for (k, id) in &self.package_map {
+            let ok = self
+                .packages
+                .get(id.index)
+                .map(|e| e.generation == id.generation && e.package.is_some())
+                .unwrap_or(false);
+            if !ok {
+                bad.push(format!("package map entry `{k}` is dead"));
+            }
+        }
+        bad
+    }
+}
+
 impl Index<NodeId> for CompositionGraph {
     type Output = Node;
 
